@@ -8,7 +8,7 @@ LEVEL = 'exploration'
 RULE = ('session S = connect, shell (2 WRTE), stat, list (2 entries), pull (2 DATA records cut inside a sync header), push, '
         'run through AdbDevice and AdbDeviceAsync; (a) every placement of <=k read-fragment deviations {1 byte, n-1, half, empty} '
         'over all bulk_read calls, (b) global fragmentation policies, (c) every single-bit corruption of every inbound payload byte '
-        'and of the data_check field, (d) unknown command words at every inbound packet; oracle = results and host packet log equal '
+        'and of the data_check field, (d) unknown command words at every inbound packet, also as a lone header that announces a payload which never follows; oracle = results and host packet log equal '
         'to the unfragmented run, never a request past the current packet, InvalidChecksumError / InvalidCommandError from the call '
         'that read the bad packet; non-trivial = at least one deviation or mutation applied; distinct = distinct (scenario, choice list)')
 ASSUMPTIONS = ['adbsim (mc/adbsim.py) is a faithful adbd model', 'virtual clock frozen (eps=0), so only fragmentation varies']
@@ -86,6 +86,8 @@ def run_mut(params, ch):
     twin = params['twin']
     cfg = scen.std_cfg()
     cfg['wire_mut'] = params['mut']
+    if params.get('version'):
+        cfg['version'] = params['version']
     ref = reference(twin)
     o = run_session(twin, cfg, ch, frag=False, stop_on_exc=True)
     viol = []     # after a bad packet the byte stream is desynchronised by definition: only the API outcome is judged
@@ -136,6 +138,12 @@ def parts(tier):
     tw = twins if tier == 'thorough' else ('sync',)
     if tier == 'quick':
         cmds = [c for c in cmds if c['magic'] or c['word'] in words[:12]]
+    lonely = [dict(c, lonely=True) for c in cmds if c['magic'] and c['word'] in words[:6]]
+    cmds = cmds + lonely
+    vmuts = [m for i, m in enumerate(muts) if i % 7 == 0]
+    out.append(Part('corrupt-newer-device', [{'twin': t, 'mut': m, 'version': 0x01000001} for t in tw for m in vmuts], run_mut,
+                    what='the same bit flips against a device that announces protocol version 0x01000001 in its CNXN (the host announced 0x01000000, so checksums still apply)',
+                    bound='%d flips (every 7th of the full set)' % len(vmuts)))
     out.append(Part('corrupt', [{'twin': t, 'mut': m} for t in tw for m in muts], run_mut,
                     what='every single-bit flip of every inbound payload byte and of data_check, one per execution', bound='%d flips' % len(muts)))
     out.append(Part('unknown-cmd', [{'twin': t, 'mut': m} for t in tw for m in cmds], run_mut,
